@@ -110,13 +110,18 @@ fn judge(plan: &Plan, _tier: Tier) -> Judged {
 			"C01" => {
 				j.nontrivial |= st.reads >= 4 && st.commits_ok >= 2 && (st.flushes > 0 || st.shape_changes > 0);
 			}
-			"C04" | "C05" => {
+			"C04" | "C05" | "C17" => {
 				j.nontrivial |= st.commits_ok + st.commits_conflict >= 3 && st.interleaving != 0;
 			}
 			"C09" => j.nontrivial |= st.cursor_ops >= 5,
 			_ => j.nontrivial |= st.commits_ok >= 2 && st.reads >= 2,
 		}
 		if let Some(v) = out.violation {
+			if std::env::var("SKV_DEBUG").is_ok() {
+				for e in out.events.iter().rev().take(60).rev() {
+					eprintln!("  ev {}", e);
+				}
+			}
 			if owned(&plan.check, &v.class) {
 				j.violation = Some(Violation { class: v.class, detail: format!("{}{}", if pi == 1 { "[twin physical plan] " } else { "" }, v.detail), explained: v.explained });
 				break;
@@ -630,6 +635,92 @@ fn gen_concurrent(case_seed: u64, tier: Tier, id: &str) -> Plan {
 		p.windows.push(Window { label: "apply.post_rotate".into(), nth: rng.range(1, 3) as u32, steps: vec![Step::Probe] });
 	}
 	p
+}
+
+// ---------------------------------------------------------------- C17
+
+fn gen_c17(case_seed: u64, _case: u64, tier: Tier) -> Plan {
+	let mut rng = Rng::new(case_seed);
+	let mut opts = random_opts(&mut rng);
+	opts.memtable = *rng.pick(&[1536usize, 1536, 2048]);
+	opts.memtable_stall = 2;
+	opts.l0_max = *rng.pick(&[1usize, 2]);
+	opts.l0_stall = opts.l0_max;
+	opts.level_count = *rng.pick(&[2u8, 3]);
+	let n_actors = rng.range(8, 12) as u8;
+	let nkeys = rng.range(6, 14) as u16;
+	let keys = key_universe(&mut rng, nkeys as usize, false);
+	let nkeys = keys.len() as u16;
+	let mut tags = TagGen(0);
+	let budget = txn_budget(opts.memtable);
+	let total = match tier {
+		Tier::Quick => rng.range(60, 260),
+		Tier::Thorough => rng.range(60, 700),
+	};
+	let close_at = if rng.chance(2, 3) { Some(rng.range(10, total)) } else { None };
+	let mut steps = Vec::new();
+	let mut open = vec![false; n_actors as usize];
+	for i in 0..total {
+		if Some(i) == close_at {
+			steps.push(Step::Close);
+		}
+		let a = rng.below(n_actors as u64) as u8;
+		match rng.below(20) {
+			0..=11 => {
+				if !open[a as usize] {
+					steps.push(Step::Begin { a, mode: if rng.chance(1, 5) { ModeS::WriteOnly } else { ModeS::ReadWrite } });
+					let len = value_len(&mut rng).min(budget - 60).max(40);
+					steps.push(Step::Set { a, k: rng.below(nkeys as u64) as u16, v: tags.next(len), ts: None });
+					open[a as usize] = true;
+				} else {
+					steps.push(Step::Commit { a, sync: false });
+					open[a as usize] = false;
+				}
+			}
+			12..=14 => steps.push(Step::Poll { a }),
+			15 => steps.push(Step::ReleaseFlushTask),
+			16 => steps.push(Step::ReleaseLevelTask),
+			17 => steps.push(Step::Get { a, k: rng.below(nkeys as u64) as u16 }),
+			18 => steps.push(if rng.chance(1, 2) { Step::WakeFlushTask } else { Step::WakeLevelTask }),
+			_ => steps.push(Step::Probe),
+		}
+	}
+	let mut p = base_plan("C17", case_seed, opts, keys, steps);
+	p.async_yields = rng.chance(2, 3);
+	p.gate_tasks = true;
+	p.params.insert("close_concurrent".into(), 1);
+	// windows in the task loops: between "no more immutables" and running=false a commit
+	// rotates the memtable and tries to wake the (still "running") task
+	for label in ["task.flush.pre_idle", "task.level.pre_idle"] {
+		if rng.chance(2, 3) {
+			let a = n_actors;
+			let mut ws = Vec::new();
+			for _ in 0..rng.range(1, 4) {
+				ws.push(Step::Begin { a, mode: ModeS::ReadWrite });
+				ws.push(Step::Set { a, k: rng.below(nkeys as u64) as u16, v: tags.next((budget - 60).min(300)), ts: None });
+				ws.push(Step::Commit { a, sync: false });
+				for _ in 0..7 {
+					ws.push(Step::Poll { a });
+				}
+			}
+			p.windows.push(Window { label: label.into(), nth: rng.range(1, 4) as u32, steps: ws });
+		}
+	}
+	p
+}
+
+pub fn c17() -> CheckDef {
+	CheckDef {
+		id: "C17",
+		level: "exploration",
+		rule: "a case = 8-12 committers + readers with 1.5-2 KiB memtables, memtable stall threshold 2 and L0 stall threshold = compaction trigger (1-2), the store's REAL background tasks gated at their loop heads and released by plan steps, nested commits inside the task loops' pre-idle windows (lost wake-up window), close() issued at a random step while commits are in flight. Oracle (liveness): once the plan ends, every commit() returns (Ok or Err) and close() returns within a bounded number of scheduler turns with all tasks released; no panic. non-trivial = >=3 commit attempts with a parked phase; distinct = op-log digest ^ interleaving hash",
+		assumptions: &["spin-waits that a parallel thread would resolve cannot be told from livelock in a serialised simulator: yield points are never placed inside them", "liveness is judged only after the plan's scheduled steps end (then everything gets turns)"],
+		components: COMPONENTS,
+		cases: |t| cases(t, 3000, 40000),
+		gen: gen_c17,
+		judge,
+		shrink_budget: 200,
+	}
 }
 
 fn cases(t: Tier, q: u64, th: u64) -> u64 {
